@@ -506,31 +506,58 @@ decreasing_by
 
 def splitWs (r : Rep) : Option (List Rep) := splitWsLoop r 0
 
-/-! `split(sep, out)` / `split(out)` with the output array given by the caller (repaired, 42a2190): the pieces are collected
-in a local array while `*this` and `sep` are still alive, then `out.clear(); out.append(parts)` — `append` resizes `out`
-(default-constructed Strings) and assigns element by element.  The string being split, or the separator, may be an
-element `out[k]` of the output array: it is fetched before anything is destroyed.  `…Unrepaired` is the order of the code
-before the repair (`out.clear()` first), where an element of `out` no longer exists when it is read (`none`). -/
+/-! `split(sep, out)` / `split(out)` with the output array given by the caller.  The array is a list of *cells*:
+`some r` = a live element, `none` = an element that has been destroyed (`out.clear()` destroys every element; the
+references `*this` / `sep` the caller passed keep pointing at the dead cell).  The operands are given by reference:
+a String outside the array, or element `k` of the output array itself.  Reading a dead cell fails (`none`).
 
-/-- `out.clear(); out.append(parts)` -/
+Both statement orders are transcribed: the repaired one (42a2190: pieces into a local array while `out` is untouched,
+then `out.clear(); out.append(parts)`) and the one before the repair (`out.clear()` first, then `out << piece` in the loop). -/
+
+abbrev Cells := List (Option Rep)
+
+/-- where an operand of `split(…, out)` lives -/
+inductive Ref where
+  | ext (r : Rep)
+  | cell (k : Nat)
+
+/-- evaluating `*this` / `sep` -/
+def deref (cells : Cells) : Ref → Option Rep
+  | .ext r => some r
+  | .cell k => (cells[k]?).bind id
+
+/-- `out.clear()`: every element is destroyed -/
+def clearCells (cells : Cells) : Cells := cells.map fun _ => none
+
+def liveCells (l : List Rep) : Cells := l.map some
+
+/-- `out.append(parts)` on the cleared array: resize (default-constructed Strings), then element-wise assignment -/
 def fillArray (parts : List Rep) : Option (List Rep) := parts.mapM fun p => empty.assign (.ext p.toList)
 
-/-- `out[k].split(sep, out)` -/
-def splitElem (out : List Rep) (k : Nat) (sep : Bytes) : Option (List Rep) :=
-  (out[k]?).bind fun self => (self.split sep).bind fillArray
+/-- `self.split(sep, out)`, repaired: `m = sep.length(), n = length()` and the loop read the operands while `out` is
+    untouched (the pieces go to the local `parts`); only then `out.clear(); out.append(parts)` -/
+def splitInto (out : Cells) (self sep : Ref) : Option Cells :=
+  (deref out sep).bind fun sp => (deref out self).bind fun s =>
+    (s.split sp.toList).bind fun parts =>
+      let _dead := clearCells out
+      (fillArray parts).map liveCells
 
-/-- `s.split(out[k], out)` — the separator is an element of the output array -/
-def splitSepElem (r : Rep) (out : List Rep) (k : Nat) : Option (List Rep) :=
-  (out[k]?).bind fun sepR => (r.split sepR.toList).bind fillArray
+/-- `self.split(sep, out)` before the repair: `out.clear();` first, then `m = sep.length(), n = length()` and the loop with
+    `out << substring(i, j)` — the operands are read through the cleared array -/
+def splitIntoOld (out : Cells) (self sep : Ref) : Option Cells :=
+  let out1 := clearCells out
+  (deref out1 sep).bind fun sp => (deref out1 self).bind fun s =>
+    (s.split sp.toList).bind fun parts => (parts.mapM copy).map liveCells
 
-/-- `out[k].split(out)` (blanks) -/
-def splitWsElem (out : List Rep) (k : Nat) : Option (List Rep) :=
-  (out[k]?).bind fun self => self.splitWs.bind fillArray
+/-- `self.split(out)` (blanks), repaired and before -/
+def splitWsInto (out : Cells) (self : Ref) : Option Cells :=
+  (deref out self).bind fun s => s.splitWs.bind fun parts =>
+    let _dead := clearCells out
+    (fillArray parts).map liveCells
 
-/-- before the repair: `out.clear()` ran first, so `out[k]` was read after its destruction -/
-def splitElemUnrepaired (out : List Rep) (k : Nat) (sep : Bytes) : Option (List Rep) :=
-  let cleared : List Rep := out.take 0
-  (cleared[k]?).bind fun self => (self.split sep).bind fillArray
+def splitWsIntoOld (out : Cells) (self : Ref) : Option Cells :=
+  let out1 := clearCells out
+  (deref out1 self).bind fun s => s.splitWs.bind fun parts => (parts.mapM copy).map liveCells
 
 /-- `Array<String>::join(sep)`: `if (n == 0) return ""; String s = a[0]; for (i = 1..) { s += sep; String v = a[i]; s += v; }` -/
 def joinLoop (sep : Rep) (acc : Rep) : List Rep → Option Rep
